@@ -38,6 +38,16 @@ MUTANTS = [
     ('C10', 'reshape: merged core reshape order', 'torchtt/_extras.py', "core = tn.reshape(core, [core.shape[0], -1, core.shape[-1]])\n\n        idx_shape += 1", "core = tn.reshape(tn.permute(core, [0, 2, 1, 3]), [core.shape[0], -1, core.shape[-1]])\n\n        idx_shape += 1", 'tt_reshape'),
     ('C10', 'to_qtt: per-core truncation again', 'torchtt/_tt_base.py', 'cores, _ = to_tt(core, Nnew, 0.0, sys.maxsize, is_sparse=False)', 'cores, _ = to_tt(core, Nnew, eps, rmax, is_sparse=False)', 'tt_to_qtt'),
     ('C10', 'qtt_to_tens: stale so_far', 'torchtt/_tt_base.py', "                    so_far *= c.shape[1]", "                    so_far *= c.shape[0]", 'tt_qtt_to_tens'),
+    ('C05', 'set_core: shape attr stale again', 'torchtt/_tt_base.py', "                self.cores[k] = core.clone()\n                self.__N[k] = core.shape[1]\n        self.shape = [(m, n) for m, n in zip(self.__M, self.__N)\n                      ] if self.__is_ttm else [n for n in self.N]", "                self.cores[k] = core.clone()\n                self.__N[k] = core.shape[1]", 'set_core'),
+    ('C05', 'reduce_dims: R not rebuilt for ttm', 'torchtt/_tt_base.py', "                self.__M.append(cores_new[i].shape[1])\n                self.__R.append(cores_new[i].shape[3])", "                self.__M.append(cores_new[i].shape[1])\n                self.__R.append(cores_new[i].shape[0])", 'reduce_dims'),
+    ('C06', 'dmrg: initial guess aliased again', 'torchtt/_dmrg.py', "    y_cores = y0.cores.copy()\n    Ry = y0.R.copy()\n    \n    d = len(x.N)", "    y_cores = y0.cores\n    Ry = y0.R.copy()\n    \n    d = len(x.N)", 'dmrg'),
+    ('C08', 'slices squeezed again', 'torchtt/_tt_base.py', "                        cores_new.append(self.cores[k][:, idx, :])\n                        exclude.append(i)", "                        cores_new.append(self.cores[k][:, idx, :])", 'getitem_shape'),
+    ('C16', 'projection: gauge term dropped', 'torchtt/manifold.py', "Sds.append(tn.einsum('riS,RS->riR',tmp1-tmp2,R))", "Sds.append(tn.einsum('riS,RS->riR',tmp1,R))", None),
+    ('C16', 'projection: last core uses wrong left factor', 'torchtt/manifold.py', "                Sds.append(tn.einsum('rs,siS->riS',L,z.cores[k]))           ", "                Sds.append(tn.einsum('rs,siS->riS',L*0+1,z.cores[k]))           ", None),
+    ('C18', 'bilinear_form guard on x only', 'torchtt/_extras.py', "    if x.N != A.M or y.N != A.N:", "    if x.N != A.M:", 'c18_bilinear'),
+    ('C18', 'mul ttm guard ignores M', 'torchtt/_tt_base.py', "                if self.__N == other.N and self.__M == other.M:", "                if self.__N == other.N:", 'c18_binop'),
+    ('C19', 'save casts cores', 'torchtt/_extras.py', "               \"N\": [int(n) for n in tensor.N], \"cores\": tensor.cores}\n        tn.save(dct, path)\n", "               \"N\": [int(n) for n in tensor.N], \"cores\": [c.to(tn.float64) if c.dtype == tn.float32 else c for c in tensor.cores]}\n        tn.save(dct, path)\n", 'save_load'),
+    ('C19', 'clone shares last core', 'torchtt/_tt_base.py', "        return TT([c.clone() for c in self.cores])", "        return TT([c.clone() for c in self.cores[:-1]] + [self.cores[-1]])", 'copies'),
     ('C20', 'layer bias dropped for batches', 'torchtt/nn.py', "        return result+self.bias", "        return result+self.bias if D == d else result", 'tt_layer'),
 ]
 
